@@ -126,7 +126,9 @@ def install(ctrl):
     def import_module(name, package=None):
         if isinstance(name, str) and name.startswith('mod') and len(name) == 19 and package is None:
             state['imports'] += 1
-            ctrl.at('import' if state['imports'] == 1 else 'reimport')
+            # the lookup before a build is 'import', the one after it 'reimport' (a protocol that verifies the
+            # entry first and finds it wanting never gets to 'import')
+            ctrl.at('reimport' if (state['imports'] > 1 or state.get('built')) else 'import')
         return real_import(name, package)
     importlib.import_module = import_module
 
@@ -143,19 +145,29 @@ def install(ctrl):
         def write(self, s):
             return self.f.write(s)
 
+        role = 'pyx'
+
         def __exit__(self, *a):
             r = self.f.__exit__(*a)
-            ctrl.wrote('pyx', self.path)
+            ctrl.wrote(self.role, self.path)
             return r
 
         def close(self):
             self.f.close()
-            ctrl.wrote('pyx', self.path)
+            ctrl.wrote(self.role, self.path)
 
     def hooked_open(path, mode='r', *a, **kw):
         if isinstance(path, str) and path.endswith('.pyx') and ('w' in mode):
             ctrl.at(('pyx', 0))
             return PyxFile(real_open(path, mode, *a, **kw), path)
+        if isinstance(path, str) and path.endswith('.ok'):
+            # the stamp of fixes/C20-verify-so-before-import.patch: read = verify the cached entry, write = stage 'ok'
+            if 'w' in mode:
+                ctrl.at(('ok', 0))
+                f = PyxFile(real_open(path, mode, *a, **kw), path)
+                f.role = 'ok'
+                return f
+            ctrl.at('verify')
         return real_open(path, mode, *a, **kw)
     C.open = hooked_open
 
@@ -208,6 +220,8 @@ def install(ctrl):
     def replace(src, dst, *a, **kw):
         if str(dst).endswith('.so'):
             ctrl.at('replace')
+        elif str(dst).endswith('.ok'):
+            ctrl.at('replaceok')
         return real_replace(src, dst, *a, **kw)
     os.replace = replace
 
@@ -215,6 +229,7 @@ def install(ctrl):
 
     def mkdtemp(*a, **kw):
         if kw.get('dir') == C.MODDIR:
+            state['built'] = True
             ctrl.at('mkdtemp')
         return real_mkdtemp(*a, **kw)
     tempfile.mkdtemp = mkdtemp
